@@ -482,6 +482,64 @@ def bool_equiv(e1: ast.AST, e2: ast.AST, max_atoms: int = 6) -> Optional[bool]:
     return True
 
 
+def quant_norm(e: ast.AST) -> ast.AST:
+    """canonical spelling of quantified emptiness tests:  not all(P) -> any(not P),  not any(P) -> all(not P),  and inside the predicate
+    len(x) > 0 / not len(x) == 0 / len(x) >= 1  ->  len(x) != 0 ;  not len(x) != 0 / len(x) < 1 -> len(x) == 0"""
+    import copy as _copy
+    e = _copy.deepcopy(e)
+
+    def neg_pred(p: ast.AST) -> ast.AST:
+        if isinstance(p, ast.UnaryOp) and isinstance(p.op, ast.Not):
+            return p.operand
+        if isinstance(p, ast.Compare) and len(p.ops) == 1 and isinstance(p.ops[0], (ast.Eq, ast.NotEq)) and isinstance(p.left, ast.Call) and dotted(p.left.func) == "len":
+            inv = ast.NotEq if isinstance(p.ops[0], ast.Eq) else ast.Eq
+            return ast.Compare(left=p.left, ops=[inv()], comparators=p.comparators)
+        return ast.UnaryOp(op=ast.Not(), operand=p)
+
+    def len_pred(p: ast.AST) -> ast.AST:
+        if isinstance(p, ast.UnaryOp) and isinstance(p.op, ast.Not):
+            inner = len_pred(p.operand)
+            return neg_pred(inner) if isinstance(inner, ast.Compare) else ast.UnaryOp(op=ast.Not(), operand=inner)
+        if isinstance(p, ast.Compare) and len(p.ops) == 1 and isinstance(p.left, ast.Call) and dotted(p.left.func) == "len" and isinstance(p.comparators[0], ast.Constant):
+            c, op = p.comparators[0].value, type(p.ops[0])
+            if (op, c) in ((ast.Gt, 0), (ast.GtE, 1), (ast.NotEq, 0)):
+                return ast.Compare(left=p.left, ops=[ast.NotEq()], comparators=[ast.Constant(value=0)])
+            if (op, c) in ((ast.Lt, 1), (ast.LtE, 0), (ast.Eq, 0)):
+                return ast.Compare(left=p.left, ops=[ast.Eq()], comparators=[ast.Constant(value=0)])
+        return p
+
+    class T(ast.NodeTransformer):
+        def visit_UnaryOp(self, n):
+            self.generic_visit(n)
+            if isinstance(n.op, ast.Not) and isinstance(n.operand, ast.Call) and dotted(n.operand.func) in ("any", "all") and len(n.operand.args) == 1 and \
+                    isinstance(n.operand.args[0], (ast.GeneratorExp, ast.ListComp)):
+                g = n.operand.args[0]
+                other = "any" if dotted(n.operand.func) == "all" else "all"
+                return ast.Call(func=ast.Name(id=other, ctx=ast.Load()), args=[ast.GeneratorExp(elt=neg_pred(len_pred(g.elt)), generators=g.generators)], keywords=[])
+            return n
+
+        def visit_Call(self, n):
+            self.generic_visit(n)
+            if dotted(n.func) in ("any", "all") and len(n.args) == 1 and isinstance(n.args[0], (ast.GeneratorExp, ast.ListComp)):
+                g = n.args[0]
+                n.args = [ast.GeneratorExp(elt=len_pred(g.elt), generators=g.generators)]
+            return n
+    out = T().visit(e)
+    ast.fix_missing_locations(out)
+    return out
+
+
+def backing_field(M: Model, cls_name: str, prop: str, default: str) -> str:
+    """name of the private attribute behind a property: the X of the getter's final `return self.X` (private attributes get renamed)"""
+    c = M.classes.get(cls_name)
+    g = M.find_getter(c, prop) if c is not None else None
+    if g is None:
+        return default
+    rets = [r for r in walk_no_nested(g.node) if isinstance(r, ast.Return) and isinstance(r.value, ast.Attribute) and
+            isinstance(r.value.value, ast.Name) and r.value.value.id == g.self_name]
+    return rets[-1].value.attr if rets else default
+
+
 def stores_to(fnode: ast.AST, name: str) -> List[ast.AST]:
     """statements that (re)bind local `name` in any way (assign, augassign, for target, with, comprehension excluded)"""
     out = []
